@@ -1,4 +1,5 @@
 import Dmn.Lemmas.DecisionTable
+import Dmn.Lemmas.DTOrder
 import Dmn.Lemmas.DTValue
 import Dmn.Model.Ops
 
@@ -239,6 +240,137 @@ example : (⟨.outputOrder, [], [.exprList [.num 3, .num 1]], [.none],
     evaluate ⟨.outputOrder, [], [.exprList [.num 3, .num 1]], [.none],
       [⟨[.t], [.num 1]⟩, ⟨[.t], [.num 3]⟩, ⟨[.t], [.num 7]⟩, ⟨[.t], [.num 3]⟩]⟩ =
       .ok (.list [.num 3, .num 3, .num 1, .num 7]) := by decide
+
+/-! ### PRIORITY and OUTPUT ORDER against a declarative specification
+
+The specification: the key of a rule is the list of the positions of its output entries among the output values of
+their clauses (`key_component`), keys are compared lexicographically (first clause most significant); OUTPUT ORDER is
+*the* arrangement of the matching rules that is sorted by key and keeps rule order among rules of equal key; PRIORITY
+is its first element, i.e. the earliest matching rule among those of least key.  The statements below are complete:
+whatever satisfies the declarative description is what the code returns. -/
+
+/-- The comparison PRIORITY and OUTPUT ORDER use is the lexicographic order (of core Lean, `List.le` / `List.lt`)
+on the keys; it is antisymmetric on keys. -/
+theorem key_order_lexicographic (t : Table) (a b : Rule) :
+    (prioLe t a b = true ↔ key t a ≤ key t b) ∧ (prioLe t a b = false ↔ key t b < key t a) ∧
+    (prioLe t a b = true → prioLe t b a = true → key t a = key t b) :=
+  ⟨lexLe_iff_le _ _, lexLe_false_iff_lt _ _, lexLe_antisymm _ _⟩
+
+/-- **OUTPUT ORDER, declaratively and completely**: *every* list of rules that (1) is a permutation of the matching
+rules, (2) is sorted by key — lexicographically, per clause the position of the output entry in the clause's output
+values —, and (3) keeps the rules of each key in rule order, is the list whose outputs the table returns.  (With
+`output_order_spec`, which says such a list exists: the three conditions determine the result.) -/
+theorem output_order_declarative (t : Table) (wf : t.WF = true) (hp : t.hitPolicy = .outputOrder)
+    (hne : matchingRules t ≠ []) (sorted : List Rule)
+    (hperm : sorted.Perm (matchingRules t))
+    (hsorted : sorted.Pairwise (fun a b => key t a ≤ key t b))
+    (hstable : ∀ k, sorted.filter (fun r => key t r = k) = (matchingRules t).filter (fun r => key t r = k)) :
+    evaluate t = .ok (.list (sorted.map (result t))) := by
+  obtain ⟨s0, hev, hp0, hs0, hst0, _⟩ := output_order_spec t wf hp hne
+  have : sorted = s0 := by
+    refine stable_sorted_unique (prioLe t) (key t) (fun a b => lexLe_antisymm _ _) sorted s0
+      (hperm.trans hp0.symm) ?_ hs0 (fun k => by rw [hstable k, hst0 k])
+    exact hsorted.imp (fun h => (lexLe_iff_le _ _).mpr h)
+  rw [this]
+  exact hev
+
+/-- Non-vacuity, in general: for every table a list with the three properties exists (`output_order_spec`). -/
+example (t : Table) (wf : t.WF = true) (hp : t.hitPolicy = .outputOrder) (hne : matchingRules t ≠ []) :
+    ∃ sorted : List Rule, sorted.Perm (matchingRules t) ∧ sorted.Pairwise (fun a b => key t a ≤ key t b) ∧
+      ∀ k, sorted.filter (fun r => key t r = k) = (matchingRules t).filter (fun r => key t r = k) := by
+  obtain ⟨s0, _, hp0, hs0, hst0, _⟩ := output_order_spec t wf hp hne
+  exact ⟨s0, hp0, hs0.imp (fun h => (lexLe_iff_le _ _).mp h), hst0⟩
+
+example : (⟨.outputOrder, [], [.exprList [.num 3, .num 1]], [.none],
+    [⟨[.t], [.num 1]⟩, ⟨[.t], [.num 3]⟩, ⟨[.t], [.num 7]⟩, ⟨[.t], [.num 3]⟩]⟩ : Table).WF = true ∧
+    matchingRules ⟨.outputOrder, [], [.exprList [.num 3, .num 1]], [.none],
+      [⟨[.t], [.num 1]⟩, ⟨[.t], [.num 3]⟩, ⟨[.t], [.num 7]⟩, ⟨[.t], [.num 3]⟩]⟩ ≠ [] ∧
+    ([⟨[.t], [.num 3]⟩, ⟨[.t], [.num 3]⟩, ⟨[.t], [.num 1]⟩, ⟨[.t], [.num 7]⟩] : List Rule).map
+      (key ⟨.outputOrder, [], [.exprList [.num 3, .num 1]], [.none],
+        [⟨[.t], [.num 1]⟩, ⟨[.t], [.num 3]⟩, ⟨[.t], [.num 7]⟩, ⟨[.t], [.num 3]⟩]⟩) = [[0], [0], [1], [2]] := by decide
+
+/-- **PRIORITY, declaratively and completely**: whenever the matching rules are `pre ++ r :: post` where the key of
+`r` is least among the matching rules and every matching rule before `r` has a strictly greater key, the table
+returns the output of `r`. -/
+theorem priority_declarative (t : Table) (wf : t.WF = true) (hp : t.hitPolicy = .priority)
+    (pre : List Rule) (r : Rule) (post : List Rule) (hms : matchingRules t = pre ++ r :: post)
+    (hmin : ∀ r' ∈ matchingRules t, key t r ≤ key t r')
+    (hfirst : ∀ x ∈ pre, key t r < key t x) :
+    evaluate t = .ok (result t r) := by
+  have hne : matchingRules t ≠ [] := by rw [hms]; simp
+  obtain ⟨r0, hf, hev⟩ := priority_spec t wf hp hne
+  have hfr : (matchingRules t).find? (fun r => (matchingRules t).all (fun r' => prioLe t r r')) = some r := by
+    rw [List.find?_eq_some_iff_append]
+    refine ⟨?_, pre, post, hms, fun x hx => ?_⟩
+    · rw [List.all_eq_true]
+      intro r' hr'
+      exact (lexLe_iff_le _ _).mpr (hmin r' hr')
+    · have hrm : r ∈ matchingRules t := by rw [hms]; simp
+      have hxr : prioLe t x r = false := (lexLe_false_iff_lt _ _).mpr (hfirst x hx)
+      simp only [Bool.not_eq_eq_eq_not, Bool.not_true]
+      rw [List.all_eq_false]
+      exact ⟨r, hrm, by rw [hxr]; simp⟩
+  rw [hfr] at hf
+  cases hf
+  exact hev
+
+/-- Such a decomposition exists whenever a rule matches — so `priority_declarative` is never vacuous and the result
+of PRIORITY is determined by it. -/
+theorem priority_declarative_exists (t : Table) (hne : matchingRules t ≠ []) :
+    ∃ pre r post, matchingRules t = pre ++ r :: post ∧
+      (∀ r' ∈ matchingRules t, key t r ≤ key t r') ∧ (∀ x ∈ pre, key t r < key t x) := by
+  have hh := head_mergeSort (prioLe t) (prioLe_trans t) (prioLe_total t) (matchingRules t)
+  cases hm : (matchingRules t).mergeSort (prioLe t) with
+  | nil =>
+    have := (List.mergeSort_perm (matchingRules t) (prioLe t)).length_eq
+    rw [hm] at this
+    exact absurd (List.eq_nil_of_length_eq_zero this.symm) hne
+  | cons r rest =>
+    rw [hm] at hh
+    simp only [List.head?_cons] at hh
+    obtain ⟨hall, pre, post, hms, hpre⟩ := List.find?_eq_some_iff_append.mp hh.symm
+    rw [List.all_eq_true] at hall
+    refine ⟨pre, r, post, hms, fun r' hr' => (lexLe_iff_le _ _).mp (hall r' hr'), fun x hx => ?_⟩
+    have hx' := hpre x hx
+    simp only [Bool.not_eq_eq_eq_not, Bool.not_true] at hx'
+    rw [List.all_eq_false] at hx'
+    obtain ⟨y, hy, hxy⟩ := hx'
+    -- `x ≤ r` would give `x ≤ y` through `r ≤ y`
+    apply (lexLe_false_iff_lt _ _).mp
+    cases hxr : prioLe t x r with
+    | false => exact hxr
+    | true => exact absurd (prioLe_trans t x r y hxr (hall y hy)) hxy
+
+/-- **PRIORITY is the first element of OUTPUT ORDER**: for the same clauses, rules and evaluated cells, the list
+OUTPUT ORDER returns begins with the output PRIORITY returns. -/
+theorem priority_is_first_of_output_order (t : Table) (wf : t.WF = true) (hp : t.hitPolicy = .priority)
+    (hne : matchingRules t ≠ []) :
+    ∃ r rest, (matchingRules t).mergeSort (prioLe t) = r :: rest ∧
+      evaluate t = .ok (result t r) ∧
+      evaluate { t with hitPolicy := .outputOrder } = .ok (.list (result t r :: rest.map (result t))) := by
+  obtain ⟨r0, hf, hev⟩ := priority_spec t wf hp hne
+  have hh := head_mergeSort (prioLe t) (prioLe_trans t) (prioLe_total t) (matchingRules t)
+  rw [hf] at hh
+  cases hm : (matchingRules t).mergeSort (prioLe t) with
+  | nil => rw [hm] at hh; simp at hh
+  | cons r rest =>
+    rw [hm] at hh
+    simp only [List.head?_cons, Option.some.injEq] at hh
+    subst hh
+    refine ⟨r, rest, rfl, hev, ?_⟩
+    obtain ⟨s0, hev', _, _, _, hs0⟩ :=
+      output_order_spec { t with hitPolicy := .outputOrder } wf rfl hne
+    rw [hev', hs0]
+    show _ = Outcome.ok (DTValue.list ((r :: rest).map (result t)))
+    rw [← hm]
+    rfl
+
+example : (⟨.priority, [], [.exprList [.num 3, .num 1]], [.none], [⟨[.t], [.num 1]⟩, ⟨[.t], [.num 3]⟩]⟩ : Table).WF = true ∧
+    matchingRules ⟨.priority, [], [.exprList [.num 3, .num 1]], [.none], [⟨[.t], [.num 1]⟩, ⟨[.t], [.num 3]⟩]⟩ =
+      [⟨[.t], [.num 1]⟩] ++ ⟨[.t], [.num 3]⟩ :: [] ∧
+    evaluate ⟨.priority, [], [.exprList [.num 3, .num 1]], [.none], [⟨[.t], [.num 1]⟩, ⟨[.t], [.num 3]⟩]⟩ = .ok (.num 3) ∧
+    evaluate ⟨.outputOrder, [], [.exprList [.num 3, .num 1]], [.none], [⟨[.t], [.num 1]⟩, ⟨[.t], [.num 3]⟩]⟩ =
+      .ok (.list [.num 3, .num 1]) := by decide
 
 /-- COLLECT #: the number of matching rules. -/
 theorem count_spec (t : Table) (hp : t.hitPolicy = .collectCount) (hne : matchingRules t ≠ []) :
